@@ -143,6 +143,10 @@ type delivered struct {
 	// a momentum the harness signed itself with the key of the elected pillar that IS valid (the control of the hostile
 	// producer family): it counts as genuinely produced
 	forgedValid bool
+	// the content lists a header for which the receiver will hold no block when the momentum is applied, and NOTHING else
+	// is wrong with the momentum (sizes, links, changes hash, signature, producer): okM stays true - it stands for
+	// everything but "the pool holds a patch for every listed header", which the model decides itself (apply_momentum)
+	unheld bool
 }
 
 func (e *delivered) bad(h types.Hash) bool { return e.badB != nil && e.badB[h] }
@@ -483,7 +487,11 @@ func batchTerm(batch []delivered) []interface{} {
 			}
 			bl = append(bl, Tup(hashZ(b.Hash), addrZ(b.Address), U64(b.Height), !e.bad(b.Hash)))
 		}
-		dl = append(dl, Tup(hashZ(e.d.Momentum.Hash), hashZ(e.d.Momentum.PreviousHash), U64(e.d.Momentum.Height), e.okM, bl))
+		hl := Lst() // the headers the momentum lists, all of them
+		for _, h := range e.d.Momentum.Content {
+			hl = append(hl, Tup(hashZ(h.Hash), addrZ(h.Address), U64(h.Height)))
+		}
+		dl = append(dl, Tup(hashZ(e.d.Momentum.Hash), hashZ(e.d.Momentum.PreviousHash), U64(e.d.Momentum.Height), e.okM, bl, hl))
 	}
 	return dl
 }
@@ -653,7 +661,7 @@ func (w *world) deliverAfter(batch []delivered, kind string, src chain.Chain, fi
 				}
 				trusted[b.Hash] = b
 			}
-			if !e.okM {
+			if !e.okM || e.unheld {
 				firstBad = i
 				break scan
 			}
